@@ -108,11 +108,37 @@ def json_value(v, fl, voc):
     raise ValueError(v)
 
 
+def merge_memberships(recs):
+    """Several anonymous, attribute-less hadMember records of one collection as ONE record
+    listing the entities (a spelling the PROV-JSON submission allows)."""
+    out, done = [], set()
+    for i, r in enumerate(recs):
+        if i in done:
+            continue
+        plain = r["k"] == "membership" and not r["id"] and len(r["attrs"]) == 2
+        if plain:
+            coll = [a for a in r["attrs"] if a["a"] == ["prov#", "collection"]]
+            same = [j for j in range(i + 1, len(recs)) if j not in done and recs[j]["k"] == "membership"
+                    and not recs[j]["id"] and len(recs[j]["attrs"]) == 2
+                    and [a for a in recs[j]["attrs"] if a["a"] == ["prov#", "collection"]] == coll]
+            if coll and same:
+                ents = [a for a in r["attrs"] if a["a"] == ["prov#", "entity"]]
+                for j in same:
+                    ents += [a for a in recs[j]["attrs"] if a["a"] == ["prov#", "entity"]]
+                    done.add(j)
+                out.append({"k": "membership", "id": [], "attrs": ents + coll})   # entities first
+                continue
+        out.append(r)
+    return out
+
+
 def json_container(recs, fl, voc, prefixes):
     c = {}
     if prefixes:
         c["prefix"] = dict((p, uri_text(ns)) for p, ns in PFX)
     anon = 0
+    if fl.get("member"):
+        recs = merge_memberships(recs)
     for r in recs:
         body = {}
         byattr = {}
@@ -130,6 +156,8 @@ def json_container(recs, fl, voc, prefixes):
                 body[key] = out[0]
             else:
                 body[key] = out
+        if fl.get("bodykeys") == "reversed":
+            body = dict(reversed(list(body.items())))
         if r["id"]:
             rid = qname(r["id"])
         else:
@@ -211,6 +239,18 @@ def xml_record(r, fl, voc):
     for a in sorted(attrs, key=rank):
         au = a["a"]
         tag = qname(au)
+        if fl.get("localns") and au[0] != "prov#":
+            # the attribute element declares its own namespace: under a fresh prefix, or by
+            # re-binding a prefix that is bound to another namespace on the root element
+            p, l = tag.split(":", 1)
+            probe = xml_value("zz:zz", a["v"], fl, voc)
+            cands = ["loc"] if fl["localns"] == "new" else \
+                [x for x in ("c", "d", "exb") if x != p and (x + ":") not in probe]
+            lp = cands[0]
+            ns = [x for x in PFX if x[0] == p][0][1]
+            el = xml_value("%s:%s" % (lp, l), a["v"], fl, voc)
+            out.append(el.replace("<%s:%s" % (lp, l), '<%s:%s xmlns:%s="%s"' % (lp, l, lp, uri_text(ns)), 1))
+            continue
         if au[0] == "prov#" and au[1] in REF:
             out.append('<%s prov:ref="%s"/>' % (tag, qname(a["v"]["u"])))
         elif au[0] == "prov#" and au[1] in TIME:
